@@ -39,7 +39,7 @@ import props as PROPS  # noqa: E402
 
 BASE_ENV = dict(os.environ)
 BASE_ENV["CARGO_NET_OFFLINE"] = "true"
-BASE_ENV.pop("RUSTFLAGS", None)
+BASE_ENV["RUSTFLAGS"] = "-Zcrate-attr=feature(allocator_api)"  # harness stubs name HashMap<K,V,S,A>
 BASE_ENV.pop("CARGO_TARGET_DIR", None)
 BASE_ENV.pop("RUSTUP_TOOLCHAIN", None)
 
@@ -357,7 +357,8 @@ PLAYBACK_RUSTFLAGS = (
     "-Zhuman_readable_cgu_names\x1f-Zalways-encode-mir\x1f--cfg=kani\x1f"
     "-Zcrate-attr=feature(register_tool)\x1f-Zcrate-attr=register_tool(kanitool)\x1f"
     "--force-warn\x1funstable_features\x1f--sysroot\x1f{home}/playback\x1f-L\x1f{home}/playback/lib\x1f"
-    "--extern\x1fforce:kani\x1f--extern\x1fnoprelude,nounused:std={home}/playback/lib/libstd.rlib"
+    "--extern\x1fforce:kani\x1f--extern\x1fnoprelude,nounused:std={home}/playback/lib/libstd.rlib\x1f"
+    "-Zcrate-attr=feature(allocator_api)"
 ).format(home=KANI_HOME)
 
 
